@@ -9,7 +9,7 @@ from . import c01
 ID = 'C16'
 
 ARGCLASSES = ['ok', 'ok', 'ok', 'missing', 'dot', 'badutf8', 'untrashable',
-              'duplicate', 'ok-link', 'ok-tree', 'ro-parent']
+              'duplicate', 'ok-link', 'ok-tree', 'ro-parent', 'empty-string']
 
 
 def config(tier):
@@ -94,6 +94,10 @@ def gen_case(rng, index, tier):
             arg = {'spelling': rng.choice(['no-such-%d' % a, '@/v1/nothing-%d' % a,
                                            'sub/none-%d' % a]),
                    'class': 'missing'}
+        elif cls == 'empty-string':
+            # what a shell passes for "$unset": names nothing
+            arg = {'spelling': '', 'class': 'missing'}
+            cls = 'missing'
         elif cls == 'dot':
             arg = {'spelling': rng.choice(['.', '..', './', '../', './.']),
                    'class': 'dot'}
@@ -150,6 +154,8 @@ def gen_case(rng, index, tier):
 
 
 def prompts(w, cwd, arg):
+    if arg['spelling'] == '':
+        return False              # names nothing: nothing to ask about
     s = world.subst(arg['spelling'], w.R)
     p = s if s.startswith('/') else os.path.join(cwd, s)
     base = os.path.basename(s.rstrip('/'))
@@ -239,7 +245,8 @@ def run_case(case):
     any_failed = False
     with world.World(case) as w2:
         cwd = w2.cwd()
-        exists = [os.path.lexists(os.path.join(cwd, world.subst(a['spelling'], w2.R)))
+        exists = [a['spelling'] != '' and
+                  os.path.lexists(os.path.join(cwd, world.subst(a['spelling'], w2.R)))
                   for a in args]
         prm = [prompts(w2, cwd, a) for a in args]
     seen_sp = set()
